@@ -77,7 +77,7 @@ def _count_nodes(p: T.List[T.Dict[str, T.Any]]) -> int:
 def genex_signature(v: T.Dict[str, T.Any], c: T.Dict[str, T.Any]) -> str:
     if c.get('ty') == 'raw':
         t = c['t']
-        shape = 'deep-nesting' if t.count('$<') > 300 else ('IF' if '$<IF' in t else 'other')
+        shape = 'deep-nesting' if t.count('$<') > 300 else ('IF' if 'IF' in t else 'other')
         return f"genex:{v['clause']}:raw:{v.get('raised') or '-'}:{shape}"
     if v['bad']:
         b = v['bad'][0]
@@ -364,10 +364,16 @@ def main(chk: Check) -> None:
                 'json-v1 and human trace format; fold B: seeded random valid command sequences observed after every command, and '
                 'sequences traced by the real cmake. Non-trivial = an expression with >= 2 nested expression nodes / a sequence of '
                 '>= 4 commands ending with a non-empty target property (distinct).')
+    import os
+    parts = os.environ.get('X09_PARTS', 'genex,fold,helpers').split(',')      # debugging aid; the check runs all parts
+    chk.max_reported = int(os.environ.get('X09_MAX_REPORTED', chk.max_reported))
     with scratch('x09-main-') as tmp, ProcessPoolExecutor(max_workers=common.NCPU) as ex:
-        part_genex(chk, ex, tmp)
-        part_fold(chk, ex, tmp)
-        part_helpers(chk, ex)
+        if 'genex' in parts:
+            part_genex(chk, ex, tmp)
+        if 'fold' in parts:
+            part_fold(chk, ex, tmp)
+        if 'helpers' in parts:
+            part_helpers(chk, ex)
     chk.exhaustive = True
     chk.assumptions += [
         'generator expressions: only the expressions generator.py lists as supported are judged by value; for every other '
